@@ -126,7 +126,16 @@ class C01Check(ExplainerCheck):
                 if op["op"] == "update" and op["t"] > 8 and op["t"] % 2 == 0:
                     op["op"] = "explain"
             return plan
-        return super().gen(seed, tier, run_index)
+        plan = super().gen(seed, tier, run_index)
+        cfg = plan["config"]
+        if cfg.get("arith") in ("float", "npfloat") and cfg["loss"]["family"] in ("sq", "abs", "lin") and run_index % 3 == 0:
+            # "whatever the loss": a loss that is discontinuous everywhere, on floating-point predictions.  The identity
+            # needs no reference here (both sides come from the explainer), so it must survive: the last link of the
+            # chain has to be the model loss itself, not the loss of a prediction one rounding away from the model's.
+            cfg["loss"]["family"] = "hash"
+            cfg["loss"].pop("scale_exp", None)
+            cfg["discontinuous_float_loss"] = True
+        return plan
 
     def run(self, plan):
         if plan.get("kind") == "tree":
